@@ -141,7 +141,12 @@ def generate(reg, key, budget=None):
                         kw["__vararg__"] = va
                 outcome = "return"
                 try:
-                    result = it.run_body(fv, pos, kw, fn)
+                    dec = it.apply_decorators(fv, fn, mod)
+                    if dec is not fv:
+                        result = it.call(dec, pos, kw, fn)      # the decorated function is what callers get
+                    else:
+                        it._entered_target = True
+                        result = it.run_body(fv, pos, kw, fn)
                 except PyRaise as pr:
                     outcome = "raise:" + pr.exc.cls
                     _check_raise(it, sp, c, key, tag, pr, vals, closure_env)
